@@ -1,0 +1,47 @@
+//go:build verif
+
+package list
+
+import "fmt"
+
+// VerifCheck walks the list in both directions and compares the walks with the cached length.
+func (l *LinkedList) VerifCheck() error {
+	var fwd []*Node
+	for n := l.head; n != nil; n = n.next {
+		fwd = append(fwd, n)
+		if int64(len(fwd)) > l.length+1_000_000 {
+			return fmt.Errorf("forward walk does not terminate")
+		}
+	}
+	var bwd []*Node
+	for n := l.tail; n != nil; n = n.prev {
+		bwd = append(bwd, n)
+		if int64(len(bwd)) > l.length+1_000_000 {
+			return fmt.Errorf("backward walk does not terminate")
+		}
+	}
+	if int64(len(fwd)) != l.length {
+		return fmt.Errorf("length field %d but %d nodes forward", l.length, len(fwd))
+	}
+	if len(bwd) != len(fwd) {
+		return fmt.Errorf("%d nodes forward but %d backward", len(fwd), len(bwd))
+	}
+	for i := range fwd {
+		if fwd[i] != bwd[len(bwd)-1-i] {
+			return fmt.Errorf("forward and backward walks differ at %d", i)
+		}
+	}
+	if len(fwd) > 0 && (fwd[0].prev != nil || fwd[len(fwd)-1].next != nil) {
+		return fmt.Errorf("head.prev or tail.next not nil")
+	}
+	return nil
+}
+
+// VerifItems returns the elements from head to tail.
+func (l *LinkedList) VerifItems() [][]byte {
+	var out [][]byte
+	for n := l.head; n != nil; n = n.next {
+		out = append(out, n.data)
+	}
+	return out
+}
